@@ -1286,7 +1286,18 @@ def k_sync_array(case, sub, d):
             and bool(_d(d, 'tuple_spec')) and _d(d, 'got', [None])[_d(d, 'pos', 0)] == _d(d, 'x', [None])[_d(d, 'pos', 0)])
 
 
+def k_unique_float_collision(case, sub, d):
+    """unique(x, float): duplicates are replaced by independent uniform draws from [min(x), max(x)] that are never
+    checked against each other (the code says so: 'HIGHLY UNLIKELY two numbers will be the same, but possible'); when the
+    range holds only a few dozen representable floats the draws collide"""
+    if sub != 'C16.unique_distinct' or (case.get('full') or {}).get('kind') != 'float':
+        return False
+    xs = [float(v) for v in case.get('x', [])]
+    return bool(xs) and (max(xs) - min(xs)) <= 1e-10 * max(1.0, max(abs(v) for v in xs))
+
+
 KNOWN = {
+    'F53-unique-float-draws-not-checked-for-collision': k_unique_float_collision,
     # (the defects F11a, negative index in impose_bounds, impose_at list targets, impose_unique deleting the caller's
     #  'type' key and synchronized with ndarray input were repaired in /repo: their predicates are no longer active)
     'F11b-ints-casts-unselected': k_f11b,
